@@ -51,6 +51,16 @@ func (g *G) chance(outOf10 int, label string) bool {
 }
 func (g *G) pick(ss []string, label string) string { return ss[g.intn(len(ss), label)] }
 
+// CountOf draws how many items of something to generate: 1..small as a rule, and one
+// time in twelve a count around the sizes at which fixed buffers, bit masks and small
+// counters end (9, 10, 16, 17).
+func (g *G) CountOf(small int, label string) int {
+	if g.intn(12, label+"-big") == 11 {
+		return []int{9, 10, 16, 17}[g.intn(4, label+"-bign")]
+	}
+	return 1 + g.intn(small, label)
+}
+
 func (g *G) axes() []string {
 	if g.AxisPool != nil {
 		return g.AxisPool
@@ -212,7 +222,7 @@ func (g *G) AxisPath(ctx *xdoc.Node, o PathOpts) *xast.Path {
 			any = true
 		}
 		if o.PredDepth > 0 && (g.chance(o.PredShare, "haspred") || (last && o.ForcePred && (!any || o.LastPred))) {
-			np := 1 + g.intn(2, "npred")
+			np := g.CountOf(2, "npred")
 			for j := 0; j < np; j++ {
 				if o.Mixed {
 					s.Preds = append(s.Preds, g.MixedPred(cands, o.PredDepth))
